@@ -74,6 +74,7 @@ type vfWorld struct {
 	mu      sync.Mutex
 	targets map[string]*vfTarget
 	routers []*Router
+	fronts  []*vfFront
 	holds   map[string]chan struct{}
 	maxIvl  time.Duration
 	maxWait time.Duration
@@ -251,6 +252,12 @@ func (w *vfWorld) close() {
 	http.DefaultTransport = vfGoexitTransport{}
 	for _, tg := range targets {
 		tg.srv.Close()
+	}
+	w.mu.Lock()
+	fronts := append([]*vfFront(nil), w.fronts...)
+	w.mu.Unlock()
+	for _, f := range fronts {
+		f.srv.Close()
 	}
 	w.net.CloseAll()
 	w.probeTransport.CloseIdleConnections()
